@@ -1,3 +1,5 @@
+//go:build drv_nycttrips || drv_all
+
 package main
 
 import (
